@@ -168,12 +168,9 @@ func c05Exhaustive(ctx *Ctx) []Case {
 	}
 	// column-level scripts on top of a small set of row scripts (full product in thorough)
 	colOps := 6
-	rowScripts := []int{13, 14, 4, 22}
+	rowScripts := []int{13, 14, 22}
 	if ctx.Thorough() {
-		rowScripts = nil
-		for i := 0; i < 27; i++ {
-			rowScripts = append(rowScripts, i)
-		}
+		rowScripts = []int{0, 4, 10, 12, 13, 14, 16, 22, 23, 25, 26}
 	}
 	applyCol := func(t *c05Table, op int) *c05Table {
 		// t has columns (id, v, w)
@@ -504,11 +501,11 @@ func genC05(ctx *Ctx) []Case {
 		mult = 12
 	}
 	pickRows := func() int { return c05RowCounts[ctx.Pick(len(c05RowCounts))] }
-	for i := 0; i < 300*mult; i++ {
+	for i := 0; i < 250*mult; i++ {
 		sh := c05Shape{guard: true, nBranch: 2 + ctx.Pick(4)/3, rows: pickRows(), touchPct: 40}
 		cases = append(cases, c05RandCase(ctx, sh, 0))
 	}
-	for i := 0; i < 250*mult; i++ {
+	for i := 0; i < 200*mult; i++ {
 		sh := c05Shape{nBranch: 2 + ctx.Pick(4)/3, rows: pickRows(), touchPct: 40}
 		cases = append(cases, c05RandCase(ctx, sh, 0))
 	}
@@ -531,7 +528,7 @@ func genC05(ctx *Ctx) []Case {
 		cases = append(cases, c05RandCase(ctx, sh, 1))
 	}
 	// CompareColumns alone: random column lists, occasionally malformed
-	for i := 0; i < 300*mult; i++ {
+	for i := 0; i < 200*mult; i++ {
 		pool := append([]string{"k"}, c05NamePool...)
 		rl := func() []string {
 			var l []string
